@@ -149,12 +149,25 @@ impl<T> End<T> {
 /// Drive `fut` to completion on a fresh runtime. If an interceptor with a crash plan stops the
 /// world, the future is dropped inside the runtime and the runtime is torn down without running
 /// anything further (no destructor effect reaches storage: the interceptor keeps answering Crash).
+thread_local! {
+    static PLAIN_RT: RefCell<Option<tokio::runtime::Runtime>> = const { RefCell::new(None) };
+}
+
 pub fn drive<T, F>(flavor: Flavor, icpt: impl AsHooked, fut: F) -> End<T>
 where
     F: Future<Output = T>,
 {
     let icpt = icpt.hooked();
-    let rt = build_rt(flavor);
+    // Un-hooked operations on the current-thread flavour reuse one runtime per worker thread
+    // (building a runtime dominates the cost of the small operations of the input sweeps).
+    let reuse = icpt.is_none() && flavor == Flavor::Current;
+    let rt = if reuse {
+        PLAIN_RT
+            .with(|c| c.borrow_mut().take())
+            .unwrap_or_else(|| build_rt(flavor))
+    } else {
+        build_rt(flavor)
+    };
     let notify = icpt.as_ref().map(|i| i.notify.clone());
     let r = catch_unwind(AssertUnwindSafe(|| {
         rt.block_on(async {
@@ -172,8 +185,12 @@ where
         })
     }));
     let crashed = icpt.as_ref().is_some_and(|i| (i.crashed)());
+    let mut outer_panic = false;
     let end = match r {
-        Err(_) => End::Panicked(take_last_panic().unwrap_or_else(|| "panic".into())),
+        Err(_) => {
+            outer_panic = true;
+            End::Panicked(take_last_panic().unwrap_or_else(|| "panic".into()))
+        }
         Ok(None) => End::Crashed,
         Ok(Some(Err(msg))) => End::Panicked(msg),
         Ok(Some(Ok(v))) => {
@@ -184,23 +201,31 @@ where
             }
         }
     };
+    let mut drained = true;
     if !crashed {
         // Let tasks spawned from destructors (the GC lock's unlock-on-drop) finish.
-        let _ = catch_unwind(AssertUnwindSafe(|| {
+        let r = catch_unwind(AssertUnwindSafe(|| {
             rt.block_on(async {
                 for _ in 0..2000 {
-                    if tokio::runtime::Handle::current().metrics().num_alive_tasks() == 0
-                        || icpt.as_ref().is_some_and(|i| (i.crashed)())
-                    {
-                        break;
+                    if tokio::runtime::Handle::current().metrics().num_alive_tasks() == 0 {
+                        return true;
+                    }
+                    if icpt.as_ref().is_some_and(|i| (i.crashed)()) {
+                        return false;
                     }
                     tokio::task::yield_now().await;
                     tokio::time::sleep(std::time::Duration::from_micros(200)).await;
                 }
+                false
             })
         }));
+        drained = r.unwrap_or(false);
     }
-    rt.shutdown_background();
+    if reuse && drained && !outer_panic {
+        PLAIN_RT.with(|c| *c.borrow_mut() = Some(rt));
+    } else {
+        rt.shutdown_background();
+    }
     end
 }
 
